@@ -207,6 +207,19 @@ def recipe(draw, forms=None):
             r["script"] = [["repeatseq", n_checks, [["op", "OP_DUP"], ["key", k, kstyle], ["op", "OP_CHECKSIGVERIFY"]]], ["op", "OP_DROP"], ["num", 1]]
             r["codesep"] = 0
             r["template"] = "budget"
+            if draw(st.booleans()):
+                # multi_a shape: <k0> CHECKSIG <k1> CHECKSIGADD ... <m> NUMEQUAL with n up to 20 and mostly empty signatures
+                # (an empty signature is free: only non-empty ones are charged against the budget)
+                n_keys = draw(st.sampled_from([2, 3, 10, 11, 12, 15, 16, 20]))
+                m_sig = draw(st.integers(0, 3))
+                signing = sorted(draw(st.lists(st.integers(0, n_keys - 1), min_size=min(m_sig, n_keys), max_size=min(m_sig, n_keys), unique=True)))
+                script = []
+                for j in range(n_keys):
+                    script += [["key", j, "xonly"], ["op", "OP_CHECKSIG" if j == 0 else "OP_CHECKSIGADD"]]
+                script += [["num", draw(st.sampled_from([len(signing), len(signing), m_sig, 1]))], ["op", "OP_NUMEQUAL"]]
+                r["script"] = script
+                # witness order: the signature for the LAST key is pushed first
+                r["unlock"] = [["sig", j, "valid" if j in signing else "empty", draw(st.sampled_from(["default", "default", 1]))] for j in reversed(range(n_keys))]
         if tmpl == "budget":
             pass
         elif tmpl == "if-truth":
